@@ -146,8 +146,19 @@ def tv_events(rng, tier):
                 else:
                     xi, yi = [], []
                     X, Y = tens(x, rows, dtype), tens(y, rows, dtype)
-                    if rng.random() < 0.3 and m > 1 and not none_mode:
-                        X, Y = X.reshape(rows, m, B), Y.reshape(rows, m, B)       # 3-D layout, blocks stay contiguous
+                    r_ = rng.random()
+                    if r_ < 0.2 and m > 1 and not none_mode:
+                        X, Y = X.reshape(rows, m, B), Y.reshape(rows, m, B)       # 3-D layout, one block per trailing row
+                    elif r_ < 0.5 and not none_mode:
+                        # any factorisation of the item into trailing dimensions: blocks are consecutive groups of the flattened item,
+                        # whether or not the last dimension is a multiple of the block size
+                        P = m * B
+                        facs = [(a, P // a) for a in range(1, P + 1) if P % a == 0]
+                        a, b = rng.choice(facs)
+                        f2 = [(c, b // c) for c in range(1, b + 1) if b % c == 0]
+                        c, d = rng.choice(f2)
+                        shp = (rows, a, b) if rng.random() < 0.6 else (rows, a, c, d)
+                        X, Y = X.reshape(shp), Y.reshape(shp)
                 eB = (len(x) // rows) if none_mode else B
                 e = {"tid": tid, "x": x, "y": y, "xi": xi, "yi": yi, "B": eB}
                 if op == "update":
